@@ -205,6 +205,28 @@ func c14Gen(r *vh.Rand, tier string, n int, emit func(any)) {
 		}
 		emit(c14Input{Ops: ops})
 	}
+	// deterministic scope: two queries whose family lists concatenate identically (they share the rune-cache key
+	// hash) but select different faces, asked alternately on one rune, for every pair of such lists and cache size
+	coll := [][]string{{"xy", "z"}, {"x", "yz"}, {"xyz"}, {"z", "xy"}, {"yz", "x"}}
+	u := c14Universe[0]
+	for _, size := range []int{1, 2, 4096} {
+		for a := range coll {
+			for b := range coll {
+				if a == b {
+					continue
+				}
+				ops := []c14Op{{K: "size", Size: size}}
+				for k, fam := range []string{"x", "xy", "z", "yz", "xyz"} {
+					ops = append(ops, c14Op{K: "face", Family: fam, Cmap: []rune{u}, File: c14Files[0], Index: uint16(100 + k)})
+				}
+				qa := c14Op{K: "query", Families: coll[a]}
+				qb := c14Op{K: "query", Families: coll[b]}
+				res := c14Op{K: "resolve", Rune: u}
+				ops = append(ops, qa, res, qb, res, qa, res, qb, res)
+				emit(c14Input{Ops: ops})
+			}
+		}
+	}
 }
 
 var c14FileCache = map[string][]byte{}
